@@ -112,3 +112,22 @@ Theorem idle_pinned_refuted :
     live_frames s < live_frames s'.
 Proof. exact idle_pinned_refuted_lemma. Qed.
 Print Assumptions idle_pinned_refuted.
+
+(** * The loop of DB.Sync and the policy gate of syncLocked are those of the current source
+
+    The policy model evaluates checkpointIfNeeded once per chunk that is not limited, or that
+    reached the end of the WAL, or that exceeds the truncate threshold, and DB.Sync keeps
+    draining while a chunk was limited and did not reach the end ([Gen.Skeleton], regenerated
+    from db.go by tools/gen/skeleton.go; [Db.Skeleton] is the structure the model was written
+    against).  A new exit from the loop (seed C13d) or a changed gate breaks this obligation. *)
+From LS Require Gen.Skeleton Db.Skeleton.
+
+Theorem sync_loop_skeleton_agrees :
+  Gen.Skeleton.skel_Sync = Db.Skeleton.expected_Sync.
+Proof. reflexivity. Qed.
+Print Assumptions sync_loop_skeleton_agrees.
+
+Theorem sync_locked_skeleton_agrees :
+  Gen.Skeleton.skel_syncLocked = Db.Skeleton.expected_syncLocked.
+Proof. reflexivity. Qed.
+Print Assumptions sync_locked_skeleton_agrees.
